@@ -628,7 +628,20 @@ pub(super) fn translate_cid(cid: rq::CId, ctx: &mut Context) -> Result<ExprOrSou
                 let t = &ctx.anchor.relation_instances[riid];
 
                 let table_ident = t.table_ref.name.clone().map(Ident::from_name);
+                // verification hook: what the choice between a qualified and a bare name reads
+                #[cfg(prqlc_verif)]
+                let verif_in = serde_json::json!({"cid": cid.get(), "pre": true,
+                    "omit": ctx.query.omit_ident_prefix, "decl": "relcol", "riid": format!("{riid:?}"),
+                    "wildcard": matches!(col, rq::RelationColumn::Wildcard),
+                    "inst_name": t.table_ref.name.clone(), "column": column.clone(),
+                    "depth": ctx.query_stack.len()});
                 let ident = translate_ident(table_ident, Some(column), ctx);
+                #[cfg(prqlc_verif)]
+                log::debug!(
+                    "verif:translate_cid {}",
+                    serde_json::json!({"in": verif_in,
+                        "out": ident.iter().map(|p| p.value.clone()).collect::<Vec<_>>()})
+                );
                 sql_ast::Expr::CompoundIdentifier(ident).into()
             }
         })
@@ -654,7 +667,21 @@ pub(super) fn translate_cid(cid: rq::CId, ctx: &mut Context) -> Result<ExprOrSou
             }
         };
 
+        // verification hook: what the choice between a qualified and a bare name reads
+        #[cfg(prqlc_verif)]
+        let verif_in = serde_json::json!({"cid": cid.get(), "pre": false,
+            "omit": ctx.query.omit_ident_prefix,
+            "decl": if matches!(column_decl, ColumnDecl::RelationColumn(..)) { "relcol" } else { "compute" },
+            "wildcard": matches!(column_decl, ColumnDecl::RelationColumn(_, _, rq::RelationColumn::Wildcard)),
+            "inst_name": table_name.clone(), "column": column.clone(),
+            "depth": ctx.query_stack.len()});
         let ident = translate_ident(table_name.map(Ident::from_name), Some(column), ctx);
+        #[cfg(prqlc_verif)]
+        log::debug!(
+            "verif:translate_cid {}",
+            serde_json::json!({"in": verif_in,
+                "out": ident.iter().map(|p| p.value.clone()).collect::<Vec<_>>()})
+        );
 
         log::debug!("translating {cid:?} post projection: {ident:?}");
 
